@@ -3,6 +3,7 @@
 use crate::campaign::{campaign, seed32, Engine, InFlight, Known, Tier, WorkerReport};
 use crate::engine::Failure;
 use crate::props::gc::GcEngine;
+use crate::props::hexlab::{ConcatEngine, HexEngine, LabelEngine, LabelEnumEngine};
 use serde_json::Value;
 
 pub struct Sub {
@@ -20,7 +21,7 @@ pub struct Meta {
     pub subs: Vec<Sub>,
 }
 
-pub const PROPS: &[&str] = &["C01", "C02", "C03", "C04", "C05"];
+pub const PROPS: &[&str] = &["C01", "C02", "C03", "C04", "C05", "C15", "C16", "C17"];
 
 pub fn leak(s: &str) -> &'static str {
     Box::leak(s.to_string().into_boxed_str())
@@ -64,6 +65,24 @@ pub fn meta(prop: &str) -> Option<Meta> {
             assumptions: gc_assume,
             subs: vec![Sub { id: "gcmodel", quick: 8_000, thorough: 1_600_000 }],
         },
+        "C15" => Meta {
+            level: "exploration",
+            rule: "per case: generated 12-byte content, 8-byte padding, 4 random + 10 special i64, 4 random + 12 special f64 bit patterns; for every length 0..=12 and every representation (canonical, heap Vector, inline array with non-zero padding) EVERY index i in {0..=14, usize::MAX-1, usize::MAX} for [i], byte_at, tail, [i..], [..i], [..=i], IndexMut and every pair (i,j) of those for [i..j], [i..=j] is compared with the same operation on the byte slice (equal result or both panic); plus bytes/len/to_vec/print/Display/Debug/[..]/eq across representations/from_str(print)/to_i64/to_f64/to_utf8/to_bool and the From conversions. The index space is enumerated completely per content. Distinct non-trivial = distinct (bytes, representation, padding) triples whose whole index space was checked.",
+            assumptions: &["the oracle is Rust's own slice indexing on the same bytes", "lengths 0..=12, indices 0..=14 and the two largest usize values"],
+            subs: vec![Sub { id: "hexenum", quick: 48, thorough: 4_800 }],
+        },
+        "C16" => Meta {
+            level: "exploration",
+            rule: "per case: two generated 12-byte contents and paddings; EVERY (len a, len b) in 0..=12 x 0..=12 and every pair of representations (canonical, heap, inline with non-zero padding): a.concat(b).bytes() == a.bytes() ++ b.bytes(), operands unchanged (bytes and representation). The length space is enumerated completely per content. Distinct non-trivial = distinct (a bytes, b bytes, representations) with a length of 8 or a total above 8. Failures with the exact signature of the open known finding are counted and the search goes on.",
+            assumptions: &["the oracle is Vec concatenation", "lengths 0..=12"],
+            subs: vec![Sub { id: "concatenum", quick: 48, thorough: 6_400 }],
+        },
+        "C17" => Meta {
+            level: "exploration",
+            rule: "sub-campaign labels-enum: EVERY text of length 0..=4 (quick) / 0..=5 (thorough) over the 14-symbol alphabet {a Z 7 + - _ α ρ φ 𝜑 0 1 9 space} is classified by an independent reading of the documented grammar into in-domain (must parse, print back identically, be injective, and equal the directly constructed value), must-be-rejected (more than 8 characters without α prefix, malformed or overflowing index) or unspecified (empty, contains a space, +index, leading zeros, α-index text longer than 8: skipped and counted); sub-campaign labels: generated texts of length 5..=10 over the alphabet, arbitrary unicode texts, α+1..22 digits; every canonical value (Greek(c), Alpha(n), Str of 2..=8) met is printed, parsed back, compared, and looked up in a graph (bind under the constructed label, kid under the parsed one). Distinct non-trivial = distinct judged (not unspecified) texts.",
+            assumptions: &["the text grammar as read from the property statement and src/label.rs documentation (DESIGN §6 C17 lists the unspecified classes)"],
+            subs: vec![Sub { id: "labels-enum", quick: 1, thorough: 1 }, Sub { id: "labels", quick: 400, thorough: 32_000 }],
+        },
         _ => return None,
     })
 }
@@ -86,6 +105,18 @@ pub fn run_sub(
             let e = GcEngine::for_prop(leak(prop));
             campaign(&e, tier, seed, cases, known, inflight, max_shrink)
         }
+        ("C15", "hexenum") => campaign(&HexEngine, tier, seed, cases, known, inflight, 50),
+        ("C16", "concatenum") => {
+            let e = ConcatEngine { tolerate: known.open.keys().cloned().collect() };
+            campaign(&e, tier, seed, cases, known, inflight, 50)
+        }
+        ("C17", "labels-enum") => {
+            let e = LabelEnumEngine { depth: if tier == Tier::Quick { 4 } else { 5 } };
+            let mut r = campaign(&e, tier, seed, cases, known, inflight, 0);
+            r.exhaustive = r.found.is_empty();
+            r
+        }
+        ("C17", "labels") => campaign(&LabelEngine, tier, seed, cases, known, inflight, 200),
         _ => panic!("unknown sub-campaign {prop}/{sub}"),
     }
 }
@@ -94,6 +125,9 @@ pub fn run_sub(
 pub fn replay(prop: &str, engine: &str, payload: &Value) -> Result<Option<Failure>, String> {
     match (prop, engine) {
         ("C01" | "C02" | "C03" | "C04" | "C05", "gcmodel") => Ok(GcEngine::for_prop(leak(prop)).replay(payload)),
+        ("C15", "hexenum") => Ok(HexEngine.replay(payload)),
+        ("C16", "concatenum") => Ok(ConcatEngine { tolerate: Default::default() }.replay(payload)),
+        ("C17", "labels" | "labels-enum") => Ok(LabelEngine.replay(payload)),
         _ => Err(format!("no replay for {prop}/{engine}")),
     }
 }
@@ -106,6 +140,9 @@ pub fn run_case(prop: &str, engine: &str, case: &Value) -> Result<Option<Failure
             let c = serde_json::from_value(case.clone()).map_err(|e| e.to_string())?;
             Ok(e.run(&c).failure)
         }
+        ("C15", "hexenum") => Ok(HexEngine.replay(case)),
+        ("C16", "concatenum") => Ok(ConcatEngine { tolerate: Default::default() }.replay(case)),
+        ("C17", "labels" | "labels-enum") => Ok(LabelEngine.replay(case)),
         _ => Err(format!("no case runner for {prop}/{engine}")),
     }
 }
